@@ -200,6 +200,7 @@ def run(res, programs, tier):
             c17b._r17_8c(res, P, cfgname)
         if "dashu_float" in P.units:
             _r15_6(res, P, cfgname)
+            _r15_7(res, P, cfgname)
         if "dashu_float" in P.units:
             _r15_5(res, P, cfgname)
 
@@ -588,6 +589,36 @@ def _r15_4b(res, P, cfgname):
         else:
             res.ok("R15.4b", cfgname, key, nontrivial=bool(need), sample=dict(function=f["p"], fields=[("%s.%s" % (v, fl)) if v else fl for v, fl in need], whole_write_blocks=len(whole)))
     res.floor("R15.4b", cfgname, n, 5, "hand-written clone_from impls")
+
+
+# ---------------------------------------------------------------------------------------------
+# R15.7  the result context of a binary float operator is Context::max(lhs.context, rhs.context): one
+# context from each operand (the analogue of R13.1's "one ring from each operand").  Taking both from the
+# same operand compiles, and differs only when the operands have different precisions, in that one form.
+def _r15_7(res, P, cfgname):
+    res.rule("R15.7", "every Context::max(a, b) takes its two contexts from two different operands")
+    n = 0
+    for f in P.fns():
+        if f["crate"] not in ("dashu_float", "dashu_ratio") or not f.get("mir"):
+            continue
+        S = du = None
+        k = 0
+        for bb, t, fr in mir.iter_calls(f["mir"]):
+            cp = fr and (fr.get("rp") or fr["p"])
+            if not cp or not cp.endswith("Context::<R>::max") or len(t["a"]) != 2:
+                continue
+            if S is None:
+                S, du = sym.Sym(f), mir.defuse_of(f["mir"])
+            k += 1
+            n += 1
+            r = [_vroots(S.operand(a), f, du, S) for a in t["a"]]
+            key = "%s Context::max #%d" % (f["p"], k)
+            if r[0] and r[1] and r[0] != r[1]:
+                res.ok("R15.7", cfgname, key, sample=dict(function=f["p"], operands=[sorted(r[0]), sorted(r[1])]))
+            else:
+                res.fail("R15.7", cfgname, key, "%s computes Context::max(%s, %s): both contexts come from the same operand, the other operand's precision is ignored in this form" % (
+                    f["p"], sym.term_str(S.operand(t["a"][0]), 40), sym.term_str(S.operand(t["a"][1]), 40)), span_loc(t["sp"]))
+    res.floor("R15.7", cfgname, n, 15, "Context::max call sites")
 
 
 LEVEL = LEVEL + ' Also (R15.4b) hand-written clone_from impls assign every field on every path, (R15.5) mirrored / ownership-variant sibling kernels agree, (R15.6) the rhs_sign factor of the shared add/sub kernels multiplies only rhs-derived values, (R19.2, shared) no step inside a debug assertion.'
